@@ -469,6 +469,59 @@ def py_literal_imports() -> typing.List[str]:
     return mods
 
 
+def extension_sources() -> typing.Dict[str, str]:
+    """where the two sides take the file extension from: include side = what filter_includes (c, cpp) passes to
+    generate_include_filepart_list, output side = what build_namespace_tree passes to _add_data_type, and the config key both resolve to"""
+    res: typing.Dict[str, str] = {}
+    for lang in ('c', 'cpp'):
+        m = gen.parse_repo('src/nunavut/lang/%s/__init__.py' % lang)
+        fn = None
+        for n in m.body:
+            if isinstance(n, ast.FunctionDef) and n.name == 'filter_includes':
+                fn = n
+        if fn is None:
+            raise Unsupported('%s filter_includes not found' % lang)
+        calls = [c for c in ast.walk(fn) if isinstance(c, ast.Call) and isinstance(c.func, ast.Attribute) and c.func.attr == 'generate_include_filepart_list']
+        if len(calls) != 1 or not calls[0].args:
+            raise Unsupported('%s filter_includes: expected one generate_include_filepart_list(ext, sort) call' % lang)
+        res['%s_inc_ext_source' % lang] = ast.unparse(calls[0].args[0])
+        ig = calls[0].func.value
+        if not (isinstance(ig, ast.Call) and call_name(ig) == 'IncludeGenerator' and len(ig.args) == 3 and ast.unparse(ig.args[0]) == 'language'):
+            raise Unsupported('%s filter_includes no longer builds IncludeGenerator(language, t, omit_serialization_support)' % lang)
+    nsmod = gen.parse_repo('src/nunavut/_namespace.py')
+    bt = None
+    for n in nsmod.body:
+        if isinstance(n, ast.FunctionDef) and n.name == 'build_namespace_tree':
+            bt = n
+    calls = [c for c in ast.walk(bt) if isinstance(c, ast.Call) and isinstance(c.func, ast.Attribute) and c.func.attr == '_add_data_type'] if bt else []
+    if len(calls) != 1 or len(calls[0].args) != 2:
+        raise Unsupported('build_namespace_tree: expected one _add_data_type(type, extension) call')
+    res['out_ext_source'] = ast.unparse(calls[0].args[1])
+    lm = gen.parse_repo('src/nunavut/lang/_language.py')
+    ext = find_method(lm, 'Language', 'extension')
+    ret = [x for x in strip_doc(ext.body) if isinstance(x, ast.Return)]
+    if len(ret) != 1:
+        raise Unsupported('Language.extension is no longer a single return')
+    res['language_extension_body'] = ast.unparse(ret[0].value)
+    key = None
+    for n in ast.walk(lm):
+        if isinstance(n, ast.Assign) and isinstance(n.targets[0], ast.Name) and n.targets[0].id == 'WKCV_DEFINITION_FILE_EXTENSION' and isinstance(n.value, ast.Constant):
+            key = n.value.value
+    res['extension_config_key'] = str(key)
+    return res
+
+
+def cpp_namespace_sites() -> typing.Tuple[typing.List[str], typing.List[str], bool]:
+    """arguments of every `| open_namespace` / `| close_namespace` application in cpp/templates/base.j2 and whether all opens precede all closes"""
+    txt = re.sub(r'\{#.*?#\}', '', gen.read_repo('src/nunavut/lang/cpp/templates/base.j2'), flags=re.S)
+    opens = [(m.start(), m.group(1).strip()) for m in re.finditer(r'\{\{\s*([^|{}]+?)\s*\|\s*open_namespace\b[^}]*\}\}', txt)]
+    closes = [(m.start(), m.group(1).strip()) for m in re.finditer(r'\{\{\s*([^|{}]+?)\s*\|\s*close_namespace\b[^}]*\}\}', txt)]
+    if txt.count('open_namespace') != len(opens) or txt.count('close_namespace') != len(closes):
+        raise Unsupported('cpp base.j2 mentions open/close_namespace outside a plain `{{ x | filter }}` application')
+    order = bool(opens) and bool(closes) and max(p for p, _ in opens) < min(p for p, _ in closes)
+    return [a for _, a in opens], [a for _, a in closes], order
+
+
 def c_tbl_angle(tbl):
     return [(c, '<%s>' % h) for c, h in tbl]
 
@@ -577,6 +630,13 @@ def gen_closure() -> typing.Tuple[bool, str]:
                      'Definition c_declares : list (str * list str) :=\n  [%s].' % ';\n   '.join(rows))
         parts.append('(* every std::NAME the C++ type templates mention *)\n'
                      'Definition cpp_tmpl_std_names : list str := %s.' % coq_strs(sorted(template_tokens('cpp'))))
+        es = extension_sources()
+        for k in ('c_inc_ext_source', 'cpp_inc_ext_source', 'out_ext_source', 'language_extension_body', 'extension_config_key'):
+            parts.append('Definition %s : str := %s.' % (k, coq_str(es[k])))
+        o_, c_, ordr = cpp_namespace_sites()
+        parts.append('(* arguments of the open_namespace / close_namespace applications in cpp/templates/base.j2 *)\n'
+                     'Definition cpp_open_ns_args : list str := %s.\nDefinition cpp_close_ns_args : list str := %s.\n'
+                     'Definition cpp_open_before_close : bool := %s.' % (coq_strs(o_), coq_strs(c_), 'true' if ordr else 'false'))
         parts.append('(* LIVE value of the q_union switch of Closure.direct: true = only a top-level pydsdl.UnionType counts (code before 0a19f41) *)\n'
                      'Definition q_union_live : bool := %s.' % ('true' if dependency_pins() else 'false'))
         parts.append('(* modules lang/py/templates/base.j2 imports literally *)\nDefinition py_literal_imports : list str := %s.' % coq_strs(py_literal_imports()))
